@@ -498,43 +498,43 @@ template<typename T> FM_NOINLINE void seq_conv(i64 a, i64 b, u64* r1, u64* r2) n
   T v2 { static_cast<T>(x) };
   *r1 = to_bits<T>(v1); *r2 = to_bits<T>(v2);
   }
-// the same named object passed twice to a unary entry point, modified in between
-template<int OP> FM_INLINE i64 un_on_object(fixed_t const & x) noexcept
-  {
-  if constexpr (OP==U_NEG) return (-x).v;
-  else if constexpr (OP==U_ABS) return abs(x).v;
-  else if constexpr (OP==U_ISNAN) return isnan(x) ? 1 : 0;
-  else if constexpr (OP==U_FLOOR) return floor(x).v;
-  else if constexpr (OP==U_CEIL) return ceil(x).v;
-  else if constexpr (OP==U_SIN) return sin(x).v;
-  else if constexpr (OP==U_COS) return cos(x).v;
-  else if constexpr (OP==U_TAN) return tan(x).v;
-  else if constexpr (OP==U_ATAN) return atan(x).v;
-  else if constexpr (OP==U_ASIN) return asin(x).v;
-  else if constexpr (OP==U_ACOS) return acos(x).v;
-  else if constexpr (OP==U_SQRT) return sqrt(x).v;
-  else return un_body<OP>(x.v);
-  }
+// the same named object passed twice to a unary entry point, modified in between. The calls are written directly on the
+// local object (no forwarding wrapper): that is the shape in which a by-reference callee with a false gnu::const is merged.
+#define FM_SEQ2(EXPR) { i64 v1 = (EXPR); x = fx(b); i64 v2 = (EXPR); *r1 = v1; *r2 = v2; }
 template<int OP> FM_NOINLINE void seq_un(i64 a, i64 b, i64* r1, i64* r2) noexcept
   {
   fixed_t x { fx(a) };
-  i64 v1 { un_on_object<OP>(x) };
-  x = fx(b);
-  i64 v2 { un_on_object<OP>(x) };
-  *r1 = v1; *r2 = v2;
+  if constexpr (OP==U_NEG) FM_SEQ2((-x).v)
+  else if constexpr (OP==U_ABS) FM_SEQ2(abs(x).v)
+  else if constexpr (OP==U_ISNAN) FM_SEQ2(isnan(x) ? 1 : 0)
+  else if constexpr (OP==U_FLOOR) FM_SEQ2(floor(x).v)
+  else if constexpr (OP==U_CEIL) FM_SEQ2(ceil(x).v)
+  else if constexpr (OP==U_SIN) FM_SEQ2(sin(x).v)
+  else if constexpr (OP==U_COS) FM_SEQ2(cos(x).v)
+  else if constexpr (OP==U_TAN) FM_SEQ2(tan(x).v)
+  else if constexpr (OP==U_ATAN) FM_SEQ2(atan(x).v)
+  else if constexpr (OP==U_ASIN) FM_SEQ2(asin(x).v)
+  else if constexpr (OP==U_ACOS) FM_SEQ2(acos(x).v)
+  else if constexpr (OP==U_SQRT) FM_SEQ2(sqrt(x).v)
+  else if constexpr (OP==U_SQRT_APROX) FM_SEQ2(sqrt_aprox(x).v)
+  else if constexpr (OP==U_ATAN_INDEX_APROX) FM_SEQ2(atan_index_aprox(x).v)
+  else if constexpr (OP==U_SIN_ANGLE_FX) FM_SEQ2(sin_angle(x).v)
+  else if constexpr (OP==U_COS_ANGLE_FX) FM_SEQ2(cos_angle(x).v)
+  else if constexpr (OP==U_TAN_ANGLE_FX) FM_SEQ2(tan_angle(x).v)
+  else FM_SEQ2(un_body<OP>(x.v))
   }
+#undef FM_SEQ2
 template<int OP> struct SeqUn { static void call(i64 a, i64 b, i64* r1, i64* r2) { seq_un<OP>(a, b, r1, r2); } };
-template<int OP> FM_INLINE void compound_step(fixed_t & x, fixed_t y) noexcept
-  {
-  if constexpr (OP==0) x += y; else if constexpr (OP==1) x -= y; else if constexpr (OP==2) x *= y; else x /= y;
-  }
+#define FM_STEP(OP, X, Y) if constexpr ((OP)==0) X += Y; else if constexpr ((OP)==1) X -= Y; else if constexpr ((OP)==2) X *= Y; else X /= Y;
 template<int OP1, int OP2> FM_NOINLINE i64 seq_compound(i64 a, i64 b, i64 c) noexcept
   {
   fixed_t x { fx(a) };
-  compound_step<OP1>(x, fx(b));
-  compound_step<OP2>(x, fx(c));
+  fixed_t const y { fx(b) }, z { fx(c) };
+  FM_STEP(OP1, x, y)
+  FM_STEP(OP2, x, z)
   return x.v;
   }
+#undef FM_STEP
 }
 FM_EXPORT void fm_seq_conv(int type, i64 a, i64 b, u64* r1, u64* r2)
   {
